@@ -39,7 +39,7 @@ size_t decodeNameFromRdata_contract(const uint8_t *messageData, size_t messageSi
 __CPROVER_requires(IORA_TRUE && iora_exc == EXC_NONE && messageSize <= DN_MAX_MSG && __CPROVER_is_fresh(messageData, messageSize))
 __CPROVER_requires(rdataSize <= 65535 && __CPROVER_is_fresh(rdata, rdataSize) && rdataStart <= messageSize && rdataSize <= messageSize - rdataStart)
 __CPROVER_requires(__CPROVER_is_fresh(name, sizeof(*name)) && G_msg_size == messageSize)
-__CPROVER_assigns(iora_exc, *name, G_name_end)
+__CPROVER_assigns(iora_exc, *name, G_name_end, G_name_start)
 /* N1 the returned RDATA offset: unchanged when there is nothing to decode, else inside RDATA (one past it only when a
  *    pointer octet is the last RDATA octet: the callers compare before they read) */
 __CPROVER_ensures(iora_exc == EXC_NONE ==> (__CPROVER_return_value == rdataOffset || __CPROVER_return_value <= rdataSize + 1))
@@ -47,7 +47,13 @@ __CPROVER_ensures((iora_exc == EXC_NONE && rdataOffset < rdataSize) ==> __CPROVE
 /* N2 a compression pointer at the start of the name: out-of-range target is an error; otherwise exactly 2 octets consumed */
 __CPROVER_ensures((RD_IS_PTR && RD_PTR >= messageSize) ==> iora_exc != EXC_NONE)
 __CPROVER_ensures((RD_IS_PTR && iora_exc == EXC_NONE) ==> __CPROVER_return_value == rdataOffset + 2)
-/* N3 */
+/* N3 the name is decoded in the context of the whole message: at the pointer target, or at the absolute position of the RDATA offset */
+__CPROVER_ensures((RD_IS_PTR && iora_exc == EXC_NONE) ==> G_name_start == RD_PTR)
+__CPROVER_ensures((!RD_IS_PTR && rdataOffset < rdataSize && iora_exc == EXC_NONE) ==> G_name_start == rdataStart + rdataOffset)
+/* N4 a literal name that ends inside RDATA: the returned RDATA offset is where it ended */
+__CPROVER_ensures((!RD_IS_PTR && rdataOffset < rdataSize && iora_exc == EXC_NONE && G_name_end >= rdataStart && G_name_end - rdataStart <= rdataSize) ==>
+   __CPROVER_return_value == G_name_end - rdataStart)
+/* N5 */
 __CPROVER_ensures(iora_exc == EXC_NONE ==> name->n <= RFC_MAX_TEXT)
 __CPROVER_ensures(iora_exc == EXC_NONE || iora_exc == EXC_DnsParseException)
 ;
@@ -92,9 +98,9 @@ void h_header(void)
 size_t parseQuestion_contract(const uint8_t *data, size_t offset, size_t size, DnsQuestion *question)
 __CPROVER_requires(IORA_TRUE && iora_exc == EXC_NONE && size <= DN_MAX_MSG && offset <= size && __CPROVER_is_fresh(data, size))
 __CPROVER_requires(__CPROVER_is_fresh(question, sizeof(*question)) && G_msg_size == size)
-__CPROVER_assigns(iora_exc, *question, G_name_end)
+__CPROVER_assigns(iora_exc, *question, G_name_end, G_name_start)
 /* Q1 QNAME (ending at G_name_end) is followed by exactly QTYPE(2) QCLASS(2); the question ends inside the message */
-__CPROVER_ensures(iora_exc == EXC_NONE ==> (__CPROVER_return_value <= size && __CPROVER_return_value == G_name_end + 4 && G_name_end >= offset))
+__CPROVER_ensures(iora_exc == EXC_NONE ==> (__CPROVER_return_value <= size && __CPROVER_return_value == G_name_end + 4 && G_name_end >= offset && G_name_start == offset))
 /* Q2 QTYPE and QCLASS are the big-endian 16-bit fields right after the name */
 __CPROVER_ensures(iora_exc == EXC_NONE ==> question->qtype == U16BE(data, G_name_end))
 __CPROVER_ensures(iora_exc == EXC_NONE ==> question->qclass == U16BE(data, G_name_end + 2))
@@ -128,10 +134,10 @@ __CPROVER_requires(__CPROVER_is_fresh(rr, sizeof(*rr)) && G_msg_size == size)
 size_t parseResourceRecord5_contract(const uint8_t *data, size_t offset, size_t size, DnsResourceRecord *rr, size_t *rdataOffset)
 RR_PRE
 __CPROVER_requires(__CPROVER_is_fresh(rdataOffset, sizeof(*rdataOffset)))
-__CPROVER_assigns(iora_exc, *rr, *rdataOffset, G_name_end)
+__CPROVER_assigns(iora_exc, *rr, *rdataOffset, G_name_end, G_name_start)
 /* R1 NAME (ending at G_name_end) is followed by the 10 fixed octets, then RDATA; the record ends inside the message exactly
  *    RDLENGTH octets after the start of RDATA */
-__CPROVER_ensures(iora_exc == EXC_NONE ==> (G_name_end >= offset && *rdataOffset == G_name_end + 10 && __CPROVER_return_value == *rdataOffset + rr->rdlength && __CPROVER_return_value <= size))
+__CPROVER_ensures(iora_exc == EXC_NONE ==> (G_name_start == offset && G_name_end >= offset && *rdataOffset == G_name_end + 10 && __CPROVER_return_value == *rdataOffset + rr->rdlength && __CPROVER_return_value <= size))
 /* R2 fixed fields bit-exact */
 RR_FIELDS(rr)
 /* R3 RDATA is exactly the RDLENGTH octets at rdataOffset (so [rdataOffset, rdataOffset + rdata.size()) lies inside the message) */
@@ -144,8 +150,8 @@ __CPROVER_ensures((size < 11 || offset > size - 11) ==> iora_exc != EXC_NONE)
 
 size_t parseResourceRecord4_contract(const uint8_t *data, size_t offset, size_t size, DnsResourceRecord *rr)
 RR_PRE
-__CPROVER_assigns(iora_exc, *rr, G_name_end)
-__CPROVER_ensures(iora_exc == EXC_NONE ==> (G_name_end >= offset && __CPROVER_return_value == G_name_end + 10 + rr->rdlength && __CPROVER_return_value <= size))
+__CPROVER_assigns(iora_exc, *rr, G_name_end, G_name_start)
+__CPROVER_ensures(iora_exc == EXC_NONE ==> (G_name_start == offset && G_name_end >= offset && __CPROVER_return_value == G_name_end + 10 + rr->rdlength && __CPROVER_return_value <= size))
 RR_FIELDS(rr)
 __CPROVER_ensures(iora_exc == EXC_NONE ==> (rr->rdata.n == rr->rdlength && rr->rdata.p == data + (G_name_end + 10)))
 __CPROVER_ensures(iora_exc == EXC_NONE ==> rr->name.n <= RFC_MAX_TEXT)
